@@ -27,7 +27,10 @@ import (
 // truth (go/types view of $GOROOT/src per platform, $GOROOT/api/go1*.txt) as plain Coq data:
 //   coq/gen/BindRestricted_gen.v   extract's restricted table and the declarations of restricted.go
 //   coq/gen/Bind_math_gen.v        the group of go1_22_math.go (holds the witness of the known finding)
-//   coq/gen/Bind_00_gen.v ... Bind_15_gen.v   all other groups of the quick set, balanced
+//   coq/gen/Bind_00_gen.v ... Bind_15_gen.v   all other host-platform groups of the quick set, balanced
+//   coq/gen/BindX_00_gen.v ... BindX_15_gen.v the tables of every other platform (stdlib/syscall + stdlib/unrestricted,
+//                                  release the installed toolchain compiles), truth = go/types for that GOOS/GOARCH
+//   coq/gen/BindXDrift_gen.v       truth objects excused from completeness there (release drift, see bindCollection.drift)
 // Data only: no lemma, no proof.  The same collection code is used by the harness (c14.go).
 
 func init() {
@@ -117,7 +120,7 @@ type apiRec struct {
 type truthObj struct {
 	ID       int
 	Name     string
-	Kind     string // func genfunc var type iface gentype constraint constid uint ufloat ustring builtin
+	Kind     string // func genfunc var type iface gentype constraint constid uint urune ufloat ustring builtin
 	Num, Den *big.Int
 	Str      string
 	Since    int
@@ -140,7 +143,9 @@ type bindGroup struct {
 	GOOS, GOARCH string
 	Files        []*bindFile
 	Truth        []*truthPkg
-	Quick        bool
+	Quick        bool // host platform: main shards of the quick set, observed in the compiled tables
+	XPlat        bool // another platform, release the installed toolchain compiles: cross-platform shards of the quick set
+	SiblingOnly  bool // quick tier: parsed only because the drift rule compares with it; not decided
 }
 
 // ---------------------------------------------------------------- truth: go/types on $GOROOT/src
@@ -284,6 +289,9 @@ func (l *bindLoader) truth(path string, api map[string]map[string]*apiEntry, pla
 				case constant.Int:
 					if n, d, ok := ratOf(o.Val()); ok {
 						t.Kind, t.Num, t.Den = "uint", n, d
+						if b.Kind() == types.UntypedRune {
+							t.Kind = "urune" // same values, but the default type is rune
+						}
 					}
 				case constant.Float:
 					if n, d, ok := ratOf(o.Val()); ok {
@@ -959,6 +967,19 @@ type bindCollection struct {
 	Restricted   []string // keys of extract's restricted table
 	RestrictedGo []string // declarations of stdlib/restricted.go
 	API          map[string]map[string]*apiEntry
+	// CompiledRelease: the N of the stdlib/syscall/go1_N_* files the installed toolchain compiles
+	CompiledRelease int
+}
+
+// bindReleaseCompiled: does the installed toolchain satisfy the release tag go1.N?
+func bindReleaseCompiled(rel int) bool {
+	tag := fmt.Sprintf("go1.%d", rel)
+	for _, t := range build.Default.ReleaseTags {
+		if t == tag {
+			return true
+		}
+	}
+	return false
 }
 
 func readRestricted(repo string) (tab, decls []string, err error) {
@@ -1026,6 +1047,18 @@ func bindCollect(repo, tier string) (*bindCollection, error) {
 	if err != nil {
 		return nil, err
 	}
+	sysMax := 0
+	for _, e := range sysEnts {
+		m := bindSysRe.FindStringSubmatch(e.Name())
+		if m == nil {
+			continue
+		}
+		rel, _ := strconv.Atoi(m[1])
+		if rel > sysMax && bindReleaseCompiled(rel) {
+			sysMax = rel
+		}
+	}
+	col.CompiledRelease = sysMax
 	for _, e := range sysEnts {
 		m := bindSysRe.FindStringSubmatch(e.Name())
 		if m == nil {
@@ -1033,14 +1066,16 @@ func bindCollect(repo, tier string) (*bindCollection, error) {
 		}
 		rel, _ := strconv.Atoi(m[1])
 		quick := m[2] == hostOS && m[3] == hostArch
-		if !quick && tier != "thorough" {
-			continue
-		}
+		// the tables of the other platforms: those of the release the installed toolchain compiles are
+		// decided in both tiers (cross-platform shards), the others in the thorough tier only; the quick
+		// tier still reads them, because the drift rule compares the two releases of a table
+		xplat := !quick && rel == sysMax
 		files := []string{"stdlib/syscall/" + e.Name()}
 		if _, err := os.Stat(filepath.Join(std, "unrestricted", e.Name())); err == nil {
 			files = append(files, "stdlib/unrestricted/"+e.Name())
 		}
-		specs = append(specs, &spec{g: &bindGroup{Name: "syscall/" + e.Name(), Release: rel, Complete: true, GOOS: m[2], GOARCH: m[3], Quick: quick},
+		specs = append(specs, &spec{g: &bindGroup{Name: "syscall/" + e.Name(), Release: rel, Complete: true, GOOS: m[2], GOARCH: m[3], Quick: quick,
+			XPlat: xplat, SiblingOnly: !quick && !xplat && tier != "thorough"},
 			files: files, paths: []string{"syscall"}})
 	}
 	// unrestricted files without a syscall counterpart would otherwise be lost
@@ -1063,6 +1098,9 @@ func bindCollect(repo, tier string) (*bindCollection, error) {
 	sort.SliceStable(specs, func(i, j int) bool {
 		if specs[i].g.Quick != specs[j].g.Quick {
 			return specs[i].g.Quick
+		}
+		if specs[i].g.XPlat != specs[j].g.XPlat {
+			return specs[i].g.XPlat
 		}
 		return specs[i].g.Name < specs[j].g.Name
 	})
@@ -1171,9 +1209,21 @@ func bindCollect(repo, tier string) (*bindCollection, error) {
 			return nil, e
 		}
 	}
-	rid, tid, wid := 0, 1000000, 2000000
+	// ids: rows from 1, truth objects from 1,000,001, wrappers from 2,000,001, in the order of the groups.
+	// The cross-platform groups number in blocks of their own (by position among the cross-platform
+	// groups), so that a row added to or removed from another file does not renumber them: only the
+	// shards whose files changed are regenerated and re-proved.
+	const xBlock = 6000
+	grid, gtid, gwid := 0, 1000000, 2000000
+	xi := 0
 	for gi, sp := range specs {
 		g := sp.g
+		rid, tid, wid := grid, gtid, gwid
+		if g.XPlat {
+			rid, tid, wid = 400000+xi*xBlock, 1400000+xi*xBlock, 2400000+xi*xBlock
+			xi++
+		}
+		rid0, tid0, wid0 := rid, tid, wid
 		// truth objects are shared between groups of one platform: copy them so that ids are per group
 		for ti, tp := range g.Truth {
 			cp := &truthPkg{Path: tp.Path, Name: tp.Name, byName: map[string]*truthObj{}, pkg: tp.pkg}
@@ -1206,7 +1256,17 @@ func bindCollect(repo, tier string) (*bindCollection, error) {
 				w.ID = wid
 			}
 		}
+		if g.XPlat {
+			if rid-rid0 >= xBlock || tid-tid0 >= xBlock || wid-wid0 >= xBlock {
+				return nil, fmt.Errorf("group %s exceeds the id block of %d", g.Name, xBlock)
+			}
+		} else {
+			grid, gtid, gwid = rid, tid, wid
+		}
 		col.Groups = append(col.Groups, g)
+	}
+	if grid >= 400000 || gtid >= 1400000 || gwid >= 2400000 {
+		return nil, fmt.Errorf("id ranges overlap: %d rows, %d truth objects, %d wrappers", grid, gtid-1000000, gwid-2000000)
 	}
 	return col, nil
 }
@@ -1351,6 +1411,8 @@ func (t *truthObj) coqKind() string {
 		return "KBuiltin"
 	case "uint":
 		return fmt.Sprintf("(KUInt %s)", bindZ(t.Num))
+	case "urune":
+		return fmt.Sprintf("(KURune %s)", bindZ(t.Num))
 	case "ufloat":
 		return fmt.Sprintf("(KUFloat %s %s)", bindZ(t.Num), bindZ(t.Den))
 	case "ustring":
@@ -1522,6 +1584,151 @@ func bindShardsOf(groups []*bindGroup) (math []*bindGroup, shards [][]*bindGroup
 	return
 }
 
+// ---------------------------------------------------------------- cross-platform shards and release drift
+
+const bindXShards = 16
+
+// bindXShardsOf distributes the cross-platform groups (tables of the other platforms for the release
+// the toolchain compiles) over a fixed number of shards: sorted by platform, consecutive platforms
+// together, so that the tables of one operating system share their strings.
+func bindXShardsOf(groups []*bindGroup) [][]*bindGroup {
+	var xs []*bindGroup
+	for _, g := range groups {
+		if g.XPlat {
+			xs = append(xs, g)
+		}
+	}
+	sort.SliceStable(xs, func(i, j int) bool { return xs[i].Name < xs[j].Name })
+	shards := make([][]*bindGroup, bindXShards)
+	per := (len(xs) + bindXShards - 1) / bindXShards
+	if per == 0 {
+		per = 1
+	}
+	for i, g := range xs {
+		k := i / per
+		if k >= bindXShards {
+			k = bindXShards - 1
+		}
+		shards[k] = append(shards[k], g)
+	}
+	return shards
+}
+
+// bindMissing is the completeness rule on one truth object (Go rendition of Model.obj_complete).
+func bindMissing(g *bindGroup, tp *truthPkg, t *truthObj) string {
+	switch t.Kind {
+	case "genfunc", "gentype", "constraint", "builtin", "other":
+		return ""
+	}
+	if t.Since > g.Release {
+		return ""
+	}
+	key := tp.Path + "/" + tp.Name
+	has := func(name string) bool {
+		for _, f := range g.Files {
+			for _, r := range f.Rows {
+				if r.Key == key && r.Name == name {
+					return true
+				}
+			}
+		}
+		return false
+	}
+	if !has(t.Name) {
+		return "no entry " + t.Name
+	}
+	if t.Kind == "iface" {
+		hasW := false
+		for _, f := range g.Files {
+			for _, w := range f.Wrappers {
+				if w.Name == extractPrefix(tp.Path)+t.Name {
+					hasW = true
+				}
+			}
+		}
+		if !has("_"+t.Name) || !hasW {
+			return "no wrapper entry _" + t.Name
+		}
+	}
+	return ""
+}
+
+func (g *bindGroup) rowOf(key, name string) *bindRow {
+	for _, f := range g.Files {
+		for _, r := range f.Rows {
+			if r.Key == key && r.Name == name {
+				return r
+			}
+		}
+	}
+	return nil
+}
+
+// sibling: the group of the same platform for the other release yaegi ships tables for.
+func (col *bindCollection) sibling(g *bindGroup) *bindGroup {
+	if !strings.HasPrefix(g.Name, "syscall/") {
+		return nil
+	}
+	for _, o := range col.Groups {
+		if o != g && strings.HasPrefix(o.Name, "syscall/") && o.GOOS == g.GOOS && o.GOARCH == g.GOARCH && o.Release != g.Release {
+			return o
+		}
+	}
+	return nil
+}
+
+// bindDrift: the truth objects of a table for another platform than the host's that the installed
+// source declares, $GOROOT/api says nothing about (platform not covered) and BOTH releases of the
+// table lack: release drift that cannot be decided offline (see c14.go).  Only missing entries; a
+// differing value in a table of the compiled release is never excused.
+type bindDriftObj struct {
+	G  *bindGroup
+	TP *truthPkg
+	T  *truthObj
+}
+
+func (col *bindCollection) drift(g *bindGroup) []bindDriftObj {
+	var out []bindDriftObj
+	if g.Quick || !g.Complete || (g.GOOS == runtime.GOOS && g.GOARCH == runtime.GOARCH) {
+		return nil
+	}
+	sib := col.sibling(g)
+	if sib == nil {
+		return nil
+	}
+	for _, tp := range g.Truth {
+		for _, t := range tp.Objs {
+			if t.API != nil || bindMissing(g, tp, t) == "" {
+				continue
+			}
+			if sib.rowOf(tp.Path+"/"+tp.Name, t.Name) == nil {
+				out = append(out, bindDriftObj{g, tp, t})
+			}
+		}
+	}
+	return out
+}
+
+func writeDriftGen(out string, col *bindCollection) error {
+	var b strings.Builder
+	b.WriteString("(* generated by vh tr-bind: truth objects of the cross-platform tables that the installed source declares,\n" +
+		"   $GOROOT/api does not cover (platform not listed) and both releases of the table lack (release drift, undecidable offline);\n" +
+		"   completeness of the cross-platform tables is proved up to these; do not edit *)\n")
+	b.WriteString("From Coq Require Import NArith List.\nImport ListNotations.\n")
+	var ids []string
+	for _, g := range col.Groups {
+		if !g.XPlat {
+			continue
+		}
+		for _, d := range col.drift(g) {
+			fmt.Fprintf(&b, "(* %d: %s.%s (%s) for %s/%s, absent from %s and from its sibling release *)\n", d.T.ID, d.TP.Path, d.T.Name, d.T.Kind, g.GOOS, g.GOARCH, g.Name)
+			ids = append(ids, fmt.Sprintf("%d%%N", d.T.ID))
+		}
+	}
+	fmt.Fprintf(&b, "Definition drift : list N := %s.\n", coqList(ids))
+	return writeIfChanged(filepath.Join(out, "BindXDrift_gen.v"), []byte(b.String()))
+}
+
 func writeRestrictedGen(out string, tab, decls []string) error {
 	var b strings.Builder
 	b.WriteString("(* generated by vh tr-bind from extract/extract.go (restricted) and stdlib/restricted.go; do not edit *)\n")
@@ -1552,6 +1759,15 @@ func trBind(args []string) error {
 	}
 	for i, s := range shards {
 		if err := writeIfChanged(filepath.Join(*out, fmt.Sprintf("Bind_%02d_gen.v", i)), []byte(bindShardText(s))); err != nil {
+			return err
+		}
+	}
+	// the tables of the other platforms (release the toolchain compiles), against go/types per GOOS/GOARCH
+	if err := writeDriftGen(*out, col); err != nil {
+		return err
+	}
+	for i, s := range bindXShardsOf(col.Groups) {
+		if err := writeIfChanged(filepath.Join(*out, fmt.Sprintf("BindX_%02d_gen.v", i)), []byte(bindShardText(s))); err != nil {
 			return err
 		}
 	}
